@@ -11,6 +11,7 @@ import (
 	"fmt"
 	"os"
 	"path/filepath"
+	"reflect"
 	"sort"
 	"strconv"
 	"strings"
@@ -271,8 +272,18 @@ func TestVerifC10Mapped(t *testing.T) {
 		path := filepath.Join(dir, "x.v1.count")
 		kv := vgen.MetaKV(t, vformat.MaxMetaLen)
 		meta := vformat.Meta(kv)
+		wantMeta := map[string]string{}
+		for _, e := range kv {
+			wantMeta[e[0]] = e[1]
+		}
 		if rapid.IntRange(0, 4).Draw(t, "fullMeta") == 0 { // exactly at the cap
 			meta = "K: " + strings.Repeat("m", vformat.MaxMetaLen-5) + "\n\n"
+			wantMeta = map[string]string{"K": strings.Repeat("m", vformat.MaxMetaLen-5)}
+		} else if rapid.IntRange(0, 4).Draw(t, "blankMetaLine") == 0 && len(meta) < vformat.MaxMetaLen-2 {
+			// empty lines carry no key: they may stand anywhere between (or before) the key lines
+			lines := strings.SplitAfter(meta, "\n")
+			at := rapid.IntRange(0, len(lines)-1).Draw(t, "blankAt")
+			meta = strings.Join(lines[:at], "") + "\n" + strings.Join(lines[at:], "")
 		}
 		st := &c10State{path: path, model: map[string]uint64{}, meta: strings.TrimRight(meta, "\x00")}
 		prebuilt := rapid.Bool().Draw(t, "prebuilt")
@@ -310,6 +321,9 @@ func TestVerifC10Mapped(t *testing.T) {
 			}
 			if !clash && (len(pf.Count) != len(want) || c10Diff(want, pf.Count) != "") {
 				t.Fatalf("library reads the independent writer's file differently: %s", c10Diff(want, pf.Count))
+			}
+			if !reflect.DeepEqual(pf.Meta, wantMeta) {
+				t.Fatalf("library reads the metadata of the independent writer's file as %q, written were %q (metadata block %q)", pf.Meta, wantMeta, meta)
 			}
 		}
 		var ms []*mappedFile
